@@ -90,3 +90,14 @@ def defer_core(tier):
     S = "xdf_spec"
     return [Job(S, "late_reader", "2,0,0,0", p8, workers=8), Job(S, "background", "2,0,0,0", p8, workers=8),
             Job(S, "barrier", "2,0,0,0", p8, workers=8), Job(S, "wrap", "2,0,0,0", dict(p8, n=7), workers=8)]
+
+
+def poll_builds():
+    return [Build("xpo_spec", "harness/c14_poll.c", flavor="spec")]
+
+
+def poll_core(tier):
+    """grace-period polling: a handle never completes early, also when taken while another grace period is in flight (C14 core)"""
+    S = "xpo_spec"
+    return [Job(S, "one", "2,0,0,0", workers=8), Job(S, "inflight", "1,0,0,0", workers=8), Job(S, "two", "1,0,0,0,1", workers=8),
+            Job(S, "three", "1,0,0,0", workers=8)]
